@@ -361,7 +361,8 @@ def verify(c: Contract, tier: str = "quick", replay: bool = True, chunk: tuple[i
 
 
 def _verify_variant(c: Contract, tier: str, replay: bool, res: Result, choice: dict[str, int], chunk: tuple[int, int] = (0, 1)) -> None:
-    timeout = c.timeout_s * BUDGET_SCALE * (3 if tier == "thorough" else 1)
+    base_timeout = c.timeout_s * BUDGET_SCALE
+    timeout = base_timeout * (3 if tier == "thorough" else 1)
     eng = Interp()
     eng.max_paths = c.max_paths
     eng.loop_specs.update(c.loops)
@@ -462,7 +463,12 @@ def _verify_variant(c: Contract, tier: str, replay: bool, res: Result, choice: d
         if chunk[0] != 0:
             res.paths = 0
     for vc in vcs:
-        discharge(vc, getattr(vc, "base_override", base), timeout, axioms=getattr(eng, "axiom_instantiator", None))
+        discharge(vc, getattr(vc, "base_override", base), base_timeout, axioms=getattr(eng, "axiom_instantiator", None))
+        if vc.status == "unknown" and timeout > base_timeout and not getattr(vc, "abstract_cex", False):
+            # thorough tier: only what the quick budgets leave open gets the three-fold budget
+            spent = vc.time_s
+            discharge(vc, getattr(vc, "base_override", base), timeout, axioms=getattr(eng, "axiom_instantiator", None))
+            vc.time_s += spent
         res.n_obligations += 1
         res.solver_time_s += vc.time_s
         res.by_backend[vc.backend] = res.by_backend.get(vc.backend, 0) + 1
